@@ -1207,6 +1207,10 @@ mod vtrace {
         /// about to access the apply cache waits (bounded) for the next collection to enter `pre_gc`,
         /// so that its `try_lock` and the collector's `lock()` of the first buckets coincide
         static RDV: AtomicU64 = AtomicU64::new(0);
+        /// collector perturbation (case parameter `gcyield=<permille>`, C07m): with this probability
+        /// the collector yields / spins after a bucket of `pre_gc` resp. before a bucket of `post_gc`,
+        /// i.e. it is preempted in the middle of locking / unlocking the apply cache
+        static GCYIELD: AtomicU64 = AtomicU64::new(0);
         static GC_EPOCH: AtomicU64 = AtomicU64::new(0);
         static INSTALLED: AtomicBool = AtomicBool::new(false);
         thread_local! {
@@ -1223,6 +1227,22 @@ mod vtrace {
                 r.set(x);
                 x
             })
+        }
+
+        fn gc_yield() {
+            let q = GCYIELD.load(Relaxed);
+            if q > 0 {
+                let r = next_rand();
+                if r % 1000 < q {
+                    if (r >> 20) % 4 == 0 {
+                        for _ in 0..((r >> 24) % 2000) {
+                            std::hint::spin_loop();
+                        }
+                    } else {
+                        std::thread::yield_now();
+                    }
+                }
+            }
         }
 
         /// `EV CA|CH <tid> @<bucket address> <operand edges> <value edges> (<node id> <tag>)*`
@@ -1288,10 +1308,12 @@ mod vtrace {
                 site::CACHE_PRE_GC_BUCKET => {
                     let (tid, addr) = (TID.with(|t| t.get()), LAST_BUCKET.with(|b| b.get()));
                     LOG.lock().unwrap().run('L', tid, addr);
+                    gc_yield();
                 }
                 site::CACHE_POST_GC_BUCKET => {
                     let tid = TID.with(|t| t.get());
                     LOG.lock().unwrap().run('U', tid, data[0]);
+                    gc_yield();
                 }
                 site::GC_BEGIN => {
                     let e = format!("EV GB {}", TID.with(|t| t.get()));
@@ -1356,6 +1378,9 @@ mod vtrace {
         pub fn set_rendezvous(permille: u64) {
             RDV.store(permille, Relaxed);
         }
+        pub fn set_gc_yield(permille: u64) {
+            GCYIELD.store(permille, Relaxed);
+        }
         pub fn enter_thread(ti: usize, seed: u64) {
             TID.with(|t| t.set(ti));
             RNG.with(|r| r.set((seed ^ ((ti as u64 + 1) * 0x9e3779b97f4a7c15)) | 1));
@@ -1412,6 +1437,7 @@ mod vtrace {
     mod imp {
         pub fn begin(_seed: u64, _permille: u64) {}
         pub fn set_rendezvous(_permille: u64) {}
+        pub fn set_gc_yield(_permille: u64) {}
         pub fn enter_thread(_ti: usize, _seed: u64) {}
         pub fn end() -> Vec<String> {
             Vec::new()
@@ -1892,6 +1918,7 @@ fn main() {
                 let cap = case.param_u64("cap", 1 << 16) as usize;
                 let cache = case.param_u64("cache", 1 << 12) as usize;
                 let threads = case.param_u64("threads", 1) as u32;
+                vtrace::set_gc_yield(case.param_u64("gcyield", 0));
                 match case.param("kind").unwrap_or("bdd") {
                     "bdd" => run_bool::<oxidd::bdd::BDDFunction>(case, oxidd::bdd::new_manager(cap, cache, threads), out),
                     "bcdd" => run_bool::<oxidd::bcdd::BCDDFunction>(case, oxidd::bcdd::new_manager(cap, cache, threads), out),
